@@ -685,6 +685,20 @@ func (e *Enc) seqEq2(sa *State, a Sl, sb *State, b Sl) T {
 	return T{fmt.Sprintf("(= %s %s)", seqID(ma, a), seqID(mb, b)), SBool}
 }
 
+// seqOf is the abstract sequence id of a byte slice (sort BSeq).
+func (e *Enc) seqOf(st *State, a Sl) T {
+	e.usesSeq = true
+	ma := e.constFor("sqa", sel(e.byteMem(st), a.Arr))
+	if e.loopDry == 0 {
+		e.seqTerms = append(e.seqTerms, seqAt{t: seqTerm{arr: ma, s: a}, at: len(e.lines)})
+		if e.seqByID == nil {
+			e.seqByID = map[string]seqTerm{}
+		}
+		e.seqByID[seqID(ma, a)] = seqTerm{arr: ma, s: a}
+	}
+	return T{seqID(ma, a), "BSeq"}
+}
+
 func seqID(arr T, s Sl) string {
 	return fmt.Sprintf("(seqid %s %s %s)", arr.S, s.Off.S, s.Len.S)
 }
@@ -692,6 +706,12 @@ func seqID(arr T, s Sl) string {
 type seqTerm struct {
 	arr T // array contents term
 	s   Sl
+}
+
+type seqAt struct {
+	t   seqTerm
+	at  int
+	lex bool // took part in a bytes.Compare (needs the order axioms)
 }
 
 type seqPair struct {
@@ -706,6 +726,12 @@ func (e *Enc) recordSeqPair(a, b seqTerm) {
 	if e.loopDry > 0 {
 		return
 	}
+	if e.seqByID == nil {
+		e.seqByID = map[string]seqTerm{}
+	}
+	e.seqByID[seqID(a.arr, a.s)] = a
+	e.seqByID[seqID(b.arr, b.s)] = b
+	e.seqTerms = append(e.seqTerms, seqAt{t: a, at: len(e.lines)}, seqAt{t: b, at: len(e.lines)})
 	e.seqPairs = append(e.seqPairs, seqPair{a, b, len(e.lines)})
 }
 
@@ -717,6 +743,10 @@ func (e *Enc) bytesCompare(a, b Sl) T {
 	ma := e.constFor("cma", sel(e.byteMem(e.cur), a.Arr))
 	mb := e.constFor("cmb", sel(e.byteMem(e.cur), b.Arr))
 	e.recordSeqPair(seqTerm{arr: ma, s: a}, seqTerm{arr: mb, s: b})
+	if e.loopDry == 0 && len(e.seqTerms) >= 2 {
+		e.seqTerms[len(e.seqTerms)-1].lex = true
+		e.seqTerms[len(e.seqTerms)-2].lex = true
+	}
 	ia := T{seqID(ma, a), "BSeq"}
 	ib := T{seqID(mb, b), "BSeq"}
 	r := e.freshT("cmp", SBV64)
